@@ -156,8 +156,8 @@ class Translator:
             lst = sorted(lst, key=lambda e: e[0])
             return '[' + '; '.join(f'({h}, [{"; ".join(str(v) for v in enc)}])' for h, enc in lst) + ']'
 
-        explit = '[' + '; '.join(f'({c}, {v}, {dl(a)}, {dl(b)}, {dl(cc)})' for c, v, a, b, cc in exp) + ']'
-        return name, ulit, '[' + '; '.join(hist) + ']', explit
+        explit = '([' + '; '.join(f'({c}, {v}, {dl(a)}, {dl(b)}, {dl(cc)})' for c, v, a, b, cc in exp) + '] : list obs)'
+        return name, ulit, '([' + '; '.join(hist) + '] : list (Z * option nat * list action))', explit
 
 
 NOTIF = {'metrics_by_handle': 0, 'alert_by_handle': 0, 'component_by_handle': 0, 'operation_by_handle': 0,
@@ -235,7 +235,7 @@ class ConsumerTranslator(Translator):
             lst = sorted(lst, key=lambda e: e[0])
             return '[' + '; '.join(f'({h}, [{"; ".join(str(v) for v in enc)}])' for h, enc in lst) + ']'
 
-        explit = '[' + '; '.join(
+        explit = '([' + '; '.join(
             f'({v}, {m}, {dl(a)}, {dl(b)}, {dl(cc)}, [{"; ".join(f"({x}, {y})" for x, y in nn)}])'
-            for v, m, a, b, cc, nn in exp) + ']'
-        return name, ulit, '[' + '; '.join(steps) + ']', explit
+            for v, m, a, b, cc, nn in exp) + '] : list cobs)'
+        return name, ulit, '([' + '; '.join(steps) + '] : list (list report))', explit
